@@ -345,7 +345,31 @@ theorem C18_template_slice (l : List (Option Nat × Option Nat)) (hl : l ≠ [])
 theorem C18_template : C18_template_statement :=
   fun ps hp => scan_renderS ps hp _ (by omega)
 
+/-- **Templates, the text produced.**  For every way `hole` of obtaining the characters of a hole
+    (request of the reference, `slice_value`, `format`/`str` — parameters; `none` = it raises) and
+    every sequence of pieces of the template grammar, `TemplateSolver.solve` (scan + assembly, as
+    modelled by `solveTemplate`) applied to the rendered text returns the concatenation, in order,
+    of the copied characters and of `hole ref slice fmt` for every hole, and raises exactly when
+    one of the holes raises. -/
+theorem C18_template_output (hole : HoleFn) (ps : List Piece) (hp : ∀ p ∈ ps, PieceOKS p) :
+    solveTemplate hole (ps.flatMap renderPieceS) = (ps.mapM (pieceOut hole)).map List.flatten := by
+  unfold solveTemplate
+  rw [C18_template ps hp, assemble_eq]
+
+/-- the two readings of `C18_template_output`: all holes succeed → the text is the flat
+    concatenation; some hole raises → the solve raises -/
+theorem C18_template_output_cases (hole : HoleFn) (ps : List Piece) (hp : ∀ p ∈ ps, PieceOKS p) :
+    (∀ out : Piece → List Char, (∀ p ∈ ps, pieceOut hole p = some (out p)) →
+      solveTemplate hole (ps.flatMap renderPieceS) = some (ps.flatMap out)) ∧
+    ((∃ p ∈ ps, pieceOut hole p = none) → solveTemplate hole (ps.flatMap renderPieceS) = none) := by
+  rw [C18_template_output hole ps hp]
+  exact ⟨fun out h => mapM_pieceOut_ok hole out ps h, fun h => mapM_pieceOut_err hole ps h⟩
+
 /-! Non-vacuity: concrete well-formed trees / hypotheses. -/
+/-- `"x={{?v}[1]:.2f};"` with the hole formatted as `2.00` gives `"x=2.00;"` -/
+example : solveTemplate (fun p sl fm => if p = "?v".toList ∧ sl = some [(some 1, some 1)] ∧ fm = some ":.2f".toList
+      then some "2.00".toList else none) "x={{?v}[1]:.2f};".toList = some "x=2.00;".toList := by
+  decide +kernel
 /-- `{{?mat}[1,:3,2:,:,0:12]:.2e}` is a piece of the full template statement -/
 example : PieceOKS (.hole "?mat".toList (some [(some 1, some 1), (none, some 3), (some 2, none), (none, none),
     (some 0, some 12)]) (some ":.2e".toList)) :=
